@@ -502,14 +502,19 @@ def _stereo_change_feasibility(
         (
             stereo_change,
             stereo.__class__(
-                atoms=tuple([state.mapping[a] for a in stereo.atoms]),
+                atoms=tuple(
+                    [
+                        state.mapping[a] if a is not None else None
+                        for a in stereo.atoms
+                    ]
+                ),
                 parity=stereo.parity,
             ),
         )
         for stereo_change, stereo_list in params.g1_stereo_changes[u].items()
         for stereo in stereo_list
         if stereo is not None # type: ignore
-        and all([a in state.mapping for a in stereo.atoms])
+        and all([a in state.mapping for a in stereo.atoms if a is not None])
     }
 
     s2 = {
@@ -517,7 +522,13 @@ def _stereo_change_feasibility(
         for stereo_change, stereo_list in params.g2_stereo_changes[v].items()
         for stereo in stereo_list
         if stereo is not None # type: ignore
-        and all([a in state.inverted_mapping for a in stereo.atoms])
+        and all(
+            [
+                a in state.inverted_mapping
+                for a in stereo.atoms
+                if a is not None
+            ]
+        )
     }
 
     if s1 == s2:
